@@ -33,10 +33,12 @@ def _id(host, realm):
     return [(264, 0x40, None, host.encode()), (296, 0x40, None, realm.encode())]
 
 
-def cer(hbh=0x01010101, e2e=0x02020202, host=None, realm=None, drop=None, apps=(S6A,)):
+def cer(hbh=0x01010101, e2e=0x02020202, host=None, realm=None, drop=None, apps=(S6A,), dup=None):
     avps = _id(host or PEER["host"], realm or PEER["realm"]) + [
         (257, 0x40, None, b"\x00\x01\x7f\x00\x00\x02"), (266, 0x40, None, (0).to_bytes(4, "big")),
         (269, 0x00, None, b"peer-product")]
+    if dup is not None:
+        avps += [a for a in avps if a[0] == dup]
     for a in apps:
         avps.append((260, 0x40, None, [(266, 0x40, None, VENDOR_3GPP.to_bytes(4, "big")),
                                        (258, 0x40, None, a.to_bytes(4, "big"))]))
@@ -45,17 +47,22 @@ def cer(hbh=0x01010101, e2e=0x02020202, host=None, realm=None, drop=None, apps=(
     return refcodec.enc_msg((1, 0x80, 257, 0, hbh, e2e, avps))
 
 
-def cea(hbh, e2e, host=None, realm=None, drop=None, result=2001, apps=(S6A,)):
+def cea(hbh, e2e, host=None, realm=None, drop=None, result=2001, apps=(S6A,), dup=None):
     avps = [(268, 0x40, None, result.to_bytes(4, "big"))] + _id(host or PEER["host"], realm or PEER["realm"]) + [
         (257, 0x40, None, b"\x00\x01\x7f\x00\x00\x02"), (266, 0x40, None, (0).to_bytes(4, "big")),
         (269, 0x00, None, b"peer-product")]
+    if dup is not None:
+        avps += [a for a in avps if a[0] == dup]
     if drop is not None:
         avps = [a for a in avps if a[0] != drop]
     return refcodec.enc_msg((1, 0x00, 257, 0, hbh, e2e, avps))
 
 
-def dwr(hbh, e2e, host=None, realm=None):
-    return refcodec.enc_msg((1, 0x80, 280, 0, hbh, e2e, _id(host or PEER["host"], realm or PEER["realm"])))
+def dwr(hbh, e2e, host=None, realm=None, dup=None):
+    avps = _id(host or PEER["host"], realm or PEER["realm"])
+    if dup is not None:
+        avps += [a for a in avps if a[0] == dup]
+    return refcodec.enc_msg((1, 0x80, 280, 0, hbh, e2e, avps))
 
 
 def dwa(hbh, e2e, host=None, realm=None, result=2001):
